@@ -7,12 +7,14 @@
 (*     end tag "c", empty element "l", character data "x"), built step by  *)
 (*     step by XmlIn_MC inside one of the CONTEXTS (a path of open         *)
 (*     elements from the root down to the place where the generated        *)
-(*     elements go), grammatical or not;                                   *)
+(*     elements go; every container of the alphabet, i.e. every token loop *)
+(*     of the reader, is the innermost element of one), grammatical or not;*)
 (*   * one MUTATION of the main part (truncation after / inside any token, *)
 (*     dropped or duplicated tags, root and namespace spellings, prolog    *)
 (*     variants, extreme depth / width / text size, empty or absent part); *)
 (*   * one deviation of the PACKAGE (another part broken, ZIP-level shape, *)
-(*     entry point).                                                       *)
+(*     a sound archive whose directory lies about an entry's sizes,        *)
+(*     checksum or method, entry point).                                   *)
 (* The harness turns the value into bytes; nothing else decides the bytes. *)
 (*                                                                         *)
 (* The REFERENCE MACHINE is the relation the property states: Open returns *)
@@ -25,7 +27,9 @@
 EXTENDS Integers, Sequences, FiniteSets, TLC
 
 \* ------------------------------------------------------------------ alphabet
-\* grammatical children of every container of the reader's alphabet (what parse* dispatches on)
+\* grammatical children of every container of the reader's alphabet: what the parse* loops of the reader dispatch on
+\* (every `case` of every token loop of pkg/document as it is now, incl. the loops of floating pictures: positions,
+\* the three polygon / extent carrying wrap kinds, the vertex list of a wrap polygon, frame and picture locks)
 Kids ==
   [x \in {"#root"} |-> {"document"}] @@
   ( "document" :> {"body"} @@
@@ -35,19 +39,26 @@ Kids ==
     "p" :> {"pPr", "r", "hyperlink", "ins", "sdt", "unknown"} @@
     "hyperlink" :> {"r"} @@
     "ins" :> {"r"} @@
-    "pPr" :> {"pStyle", "numPr", "jc", "spacing", "ind", "pBdr", "tabs", "keepNext", "outlineLvl", "sectPr", "unknown"} @@
+    "pPr" :> {"pStyle", "numPr", "jc", "spacing", "ind", "pBdr", "tabs", "keepNext", "keepLines", "pageBreakBefore", "widowControl",
+              "outlineLvl", "snapToGrid", "sectPr", "unknown"} @@
     "numPr" :> {"ilvl", "numId"} @@
-    "pBdr" :> {"top"} @@
+    "pBdr" :> {"top", "left", "bottom", "right"} @@
     "tabs" :> {"tab"} @@
     "r" :> {"rPr", "t", "br", "fldChar", "instrText", "drawing", "unknown"} @@
-    "rPr" :> {"b", "u", "sz", "color", "rFonts", "unknown"} @@
+    "rPr" :> {"b", "bCs", "i", "iCs", "u", "strike", "sz", "szCs", "color", "highlight", "rFonts", "unknown"} @@
     "t" :> {"text"} @@
     "instrText" :> {"text"} @@
     "drawing" :> {"inline", "anchor"} @@
-    "inline" :> {"extent", "docPr", "graphic"} @@
-    "anchor" :> {"simplePos", "positionH", "extent", "wrapSquare", "wrapTight", "docPr", "cNvGraphicFramePr", "graphic"} @@
+    "inline" :> {"extent", "effectExtent", "docPr", "cNvGraphicFramePr", "graphic"} @@
+    "anchor" :> {"simplePos", "positionH", "positionV", "extent", "effectExtent", "wrapNone", "wrapSquare", "wrapTight", "wrapThrough",
+                 "wrapTopAndBottom", "docPr", "cNvGraphicFramePr", "graphic"} @@
     "positionH" :> {"align", "posOffset"} @@
+    "positionV" :> {"align", "posOffset"} @@
+    "align" :> {"text"} @@
+    "posOffset" :> {"text"} @@
     "wrapTight" :> {"wrapPolygon"} @@
+    "wrapThrough" :> {"wrapPolygon"} @@
+    "wrapTopAndBottom" :> {"effectExtent"} @@
     "wrapPolygon" :> {"start", "lineTo"} @@
     "cNvGraphicFramePr" :> {"graphicFrameLocks"} @@
     "graphic" :> {"graphicData"} @@
@@ -59,16 +70,16 @@ Kids ==
     "spPr" :> {"xfrm", "prstGeom"} @@
     "xfrm" :> {"off", "ext"} @@
     "tbl" :> {"tblPr", "tblGrid", "tr"} @@
-    "tblPr" :> {"tblW", "jc", "tblStyle", "tblLook", "tblBorders", "tblCellMar", "tblLayout"} @@
-    "tblBorders" :> {"top", "insideH"} @@
-    "tblCellMar" :> {"top", "left"} @@
+    "tblPr" :> {"tblW", "jc", "tblStyle", "tblLook", "tblBorders", "shd", "tblCellMar", "tblLayout", "tblInd"} @@
+    "tblBorders" :> {"top", "left", "bottom", "right", "insideH", "insideV"} @@
+    "tblCellMar" :> {"top", "left", "bottom", "right"} @@
     "tblGrid" :> {"gridCol"} @@
     "tr" :> {"trPr", "tc"} @@
     "trPr" :> {"trHeight", "cantSplit", "tblHeader"} @@
     "tc" :> {"tcPr", "p", "tbl"} @@
-    "tcPr" :> {"tcW", "gridSpan", "vMerge", "vAlign", "shd", "tcBorders", "tcMar"} @@
-    "tcBorders" :> {"top", "left"} @@
-    "tcMar" :> {"top", "left"} @@
+    "tcPr" :> {"tcW", "gridSpan", "vMerge", "vAlign", "textDirection", "shd", "tcBorders", "tcMar", "noWrap", "hideMark"} @@
+    "tcBorders" :> {"top", "left", "bottom", "right", "insideH", "insideV", "tl2br", "tr2bl"} @@
+    "tcMar" :> {"top", "left", "bottom", "right"} @@
     "sectPr" :> {"pgSz", "pgMar", "cols", "docGrid", "titlePg", "pgNumType", "headerReference", "footerReference"} @@
     "unknown" :> {"unknown", "p", "r", "t"} )
 
@@ -77,6 +88,8 @@ AllNames == Containers \cup UNION {Kids[c] : c \in DOMAIN Kids}
 KidsOf(n) == IF n \in DOMAIN Kids THEN Kids[n] ELSE {}
 
 \* contexts: where the generated elements are placed (the path is opened first and closed last)
+InlinePath == <<"document", "body", "p", "r", "drawing", "inline">>
+AnchorPath == <<"document", "body", "p", "r", "drawing", "anchor">>
 CtxPath ==
   "root"    :> <<>> @@
   "doc"     :> <<"document">> @@
@@ -101,8 +114,41 @@ CtxPath ==
   "anchor"  :> <<"document", "body", "p", "r", "drawing", "anchor">> @@
   "gdata"   :> <<"document", "body", "p", "r", "drawing", "inline", "graphic", "graphicData">> @@
   "pic"     :> <<"document", "body", "p", "r", "drawing", "inline", "graphic", "graphicData", "pic">> @@
-  "apic"    :> <<"document", "body", "p", "r", "drawing", "anchor", "graphic", "graphicData", "pic">>
+  "apic"    :> <<"document", "body", "p", "r", "drawing", "anchor", "graphic", "graphicData", "pic">> @@
+  \* the remaining token loops of the reader: every container of the alphabet is the innermost element of a context
+  "sdt"     :> <<"document", "body", "sdt">> @@
+  "ins"     :> <<"document", "body", "p", "ins">> @@
+  "numPr"   :> <<"document", "body", "p", "pPr", "numPr">> @@
+  "pBdr"    :> <<"document", "body", "p", "pPr", "pBdr">> @@
+  "tabs"    :> <<"document", "body", "p", "pPr", "tabs">> @@
+  "unknown" :> <<"document", "body", "unknown">> @@
+  "tblGrid" :> <<"document", "body", "tbl", "tblGrid">> @@
+  "tblBorders" :> <<"document", "body", "tbl", "tblPr", "tblBorders">> @@
+  "tblCellMar" :> <<"document", "body", "tbl", "tblPr", "tblCellMar">> @@
+  "trPr"    :> <<"document", "body", "tbl", "tr", "trPr">> @@
+  "tcBorders" :> <<"document", "body", "tbl", "tr", "tc", "tcPr", "tcBorders">> @@
+  "tcMar"   :> <<"document", "body", "tbl", "tr", "tc", "tcPr", "tcMar">> @@
+  "posH"    :> AnchorPath \o <<"positionH">> @@
+  "posV"    :> AnchorPath \o <<"positionV">> @@
+  "align"   :> AnchorPath \o <<"positionH", "align">> @@
+  "posOff"  :> AnchorPath \o <<"positionV", "posOffset">> @@
+  "wrapT"   :> AnchorPath \o <<"wrapTight">> @@
+  "wrapThr" :> AnchorPath \o <<"wrapThrough">> @@
+  "wrapTB"  :> AnchorPath \o <<"wrapTopAndBottom">> @@
+  "wpoly"   :> AnchorPath \o <<"wrapTight", "wrapPolygon">> @@
+  "wpolyThr" :> AnchorPath \o <<"wrapThrough", "wrapPolygon">> @@
+  "gfp"     :> AnchorPath \o <<"cNvGraphicFramePr">> @@
+  "graphic" :> InlinePath \o <<"graphic">> @@
+  "nvPicPr" :> InlinePath \o <<"graphic", "graphicData", "pic", "nvPicPr">> @@
+  "cNvPicPr" :> InlinePath \o <<"graphic", "graphicData", "pic", "nvPicPr", "cNvPicPr">> @@
+  "blipFill" :> InlinePath \o <<"graphic", "graphicData", "pic", "blipFill">> @@
+  "spPr"    :> AnchorPath \o <<"graphic", "graphicData", "pic", "spPr">> @@
+  "xfrm"    :> AnchorPath \o <<"graphic", "graphicData", "pic", "spPr", "xfrm">>
 AllCtx == DOMAIN CtxPath
+
+\* the contexts are placements the grammar allows, and no token loop of the reader is without one
+CtxGrammatical == \A c \in AllCtx : \A i \in 1..Len(CtxPath[c]) : CtxPath[c][i] \in Kids[IF i = 1 THEN "#root" ELSE CtxPath[c][i - 1]]
+CtxCoverLoops  == \A n \in Containers : \E c \in AllCtx : CtxPath[c] # <<>> /\ CtxPath[c][Len(CtxPath[c])] = n
 
 \* ------------------------------------------------------------------- tokens
 Tok(k, n, a) == [k |-> k, n |-> n, a |-> a]
@@ -229,7 +275,36 @@ PkBreaks == {"empty", "trunc", "text", "binary", "wrongroot", "missing", "noattr
 ZipShapes == {"ok", "emptyzip", "dirs", "dupmain", "dupmainbad", "zerolen", "cutzip", "cutzipdir", "nonzip", "nobytes", "stored",
               "backslash", "upcase", "prefixjunk", "onlymain", "noise"}
 Entries  == {"mem", "file"}
-NoPk == [part |-> "none", brk |-> "none", zip |-> "ok", entry |-> "mem"]
+
+\* a structurally sound archive whose DIRECTORY LIES about an entry: one field of the entry's header (in the central
+\* directory and in the local header alike) declares something the stored data do not bear out.  Every archive a ZIP
+\* writer produces is honest; these are byte strings all the same.
+\*   usize / csize : the declared uncompressed / compressed size as a function of the true size v, <<a, e, b>> standing
+\*                   for a * v + 2^e + b (e = -1: no power term); 2^32 and beyond need the zip64 extra field
+\*   crc           : the declared checksum, the same way as a function of the true one
+\*   method        : <<the method the data are stored with, the method the header declares, 0>> (0 stored, 8 deflated)
+ZipLieFields == {"usize", "csize", "crc", "method"}
+SizeLies == "zero"  :> <<0, -1, 0>>  @@   \* nothing
+            "less"  :> <<1, -1, -1>> @@   \* one byte less than there is
+            "more"  :> <<1, -1, 1>>  @@   \* one byte more than there is
+            "max32" :> <<0, 32, -2>> @@   \* the largest size a plain (non-zip64) header can declare
+            "huge"  :> <<0, 62, 0>>  @@   \* zip64: far beyond any memory
+            "neg"   :> <<1, 63, 0>>       \* zip64: negative once converted to a signed 64-bit integer
+LieVals == "usize"  :> SizeLies @@
+           "csize"  :> SizeLies @@
+           "crc"    :> ("more" :> <<1, -1, 1>> @@ "zero" :> <<0, -1, 0>>) @@
+           "method" :> ("stored" :> <<8, 0, 0>> @@ "deflated" :> <<0, 8, 0>> @@ "unknown" :> <<8, 99, 0>>)
+ZipLieTargets == {"main", "styles", "media", "all"}      \* the entry (entries) the lie is told about
+NoLie == [fld |-> "none", val |-> "none", tgt |-> "none", lv |-> <<1, -1, 0>>]
+Lie(f, v, t) == [fld |-> f, val |-> v, tgt |-> t, lv |-> LieVals[f][v]]
+ZipLies == UNION {{Lie(f, v, t) : v \in DOMAIN LieVals[f], t \in ZipLieTargets} : f \in ZipLieFields}
+\* every one of them declares something else than the truth, whatever the true value (of a non-empty entry) is
+LieSound ==
+  /\ \A f \in {"usize", "csize", "crc"} : \A v \in DOMAIN LieVals[f] :
+       LET l == LieVals[f][v] IN
+       IF l[2] = -1 THEN \A x \in 1..64 : (l[1] * x + l[3] # x /\ l[1] * x + l[3] >= 0) ELSE l[2] >= 32
+  /\ \A v \in DOMAIN LieVals["method"] : LieVals["method"][v][1] # LieVals["method"][v][2]
+NoPk == [part |-> "none", brk |-> "none", zip |-> "ok", entry |-> "mem", lie |-> NoLie]
 
 \* ------------------------------------------------------- the reference machine
 \* abstract state of one run: what the caller holds
@@ -269,7 +344,8 @@ Viol_Call(s, o, ret, wf) ==
 
 \* classes of the input for the signature: the mutation of the main part and the deviation of the package
 MutOf(op) == op.mut.kind
-PkOf(op) == IF op.pk.zip # "ok" THEN "zip-" \o op.pk.zip
+PkOf(op) == IF op.pk.lie.fld # "none" THEN "ziplie-" \o op.pk.lie.fld \o "-" \o op.pk.lie.val \o "-" \o op.pk.lie.tgt
+            ELSE IF op.pk.zip # "ok" THEN "zip-" \o op.pk.zip
             ELSE IF op.pk.part # "none" THEN op.pk.part \o "-" \o op.pk.brk
             ELSE "pkg-ok"
 =============================================================================
